@@ -49,6 +49,22 @@ CHECKS = {
         text="4 caller signal masks x 12 disposition tables x 12 scenarios with the real exec (child side: hello reports empty mask, nothing ignored or "
              "caught) and the same scenarios under every single fault at every call of reproc_start (parent side: mask, 31 dispositions, cwd, environ "
              "pointer+content identical before/after on every return path; a failure of the restoring call itself is exempt, as the property says)."),
+    "C07": dict(
+        cat="model_checking", design="3/C07",
+        technique="stateless model checking of the real library: exhaustive enumeration of stop triples x child behaviours x schedules/blocked-call outcomes under a virtual clock, clause-checking oracle over signals, result and virtual times",
+        text="All stop triples over {noop, wait, terminate, kill, out-of-range} x timeouts {0, 2 ms, until-deadline, infinite} (quick: infinite only in the "
+             "last non-noop slot, 1730 triples; thorough: all 2744 distinguishable ones) x deadline {none, 3 ms} x child {exits by itself at any "
+             "scheduling/blocked point, dies on SIGTERM, handler then dies when released, ignores SIGTERM} x state {running, exited-unreaped, reaped}. "
+             "Oracle: signals are a prefix of the actions' signals in order, each sent exactly when the preceding waits have expired on the virtual "
+             "clock and never after the child's exit; status iff reaped and exact; ETIMEDOUT iff every slot ran and no wait could have seen the exit; "
+             "EINVAL only at a reached out-of-range slot; a hang only inside an infinite slot with a child that cannot end."),
+    "C15": dict(
+        cat="model_checking", design="3/C15",
+        technique="stateless model checking of the real library: the C07 space driven through options.stop + reproc_destroy, plus handle-state enumeration",
+        text="The C07 space through reproc_start(options.stop) + reproc_destroy (no result: judged from the child ledger, signals and virtual return "
+             "time), the default policy (returns only with the child reaped, SIGTERM not before the deadline and never without one), destroy on "
+             "NULL / never started / failed start / rejected options (no kill, poll, waitpid or close; ledgers clean), the forked side (h_start), and a "
+             "handle whose first start failed with a deadline before the real start without one."),
 }
 
 NOT_YET = "check not built yet (work in progress; see DESIGN.md section 7 for the build order)"
